@@ -736,6 +736,9 @@ impl<'a> Runner<'a> {
             self.rep.evaluations += 1;
             match prepare(c) {
                 Prep::Rejected(why) => {
+                    if std::env::var("NV_SHOW_REJECTED").is_ok() {
+                        eprintln!("rejected: {why}\n--- schema\n{}\n--- document\n{}", c.sdl.join("\n--- next file\n"), c.doc);
+                    }
                     self.rep.count(&format!("not-a-case:{}", why.chars().take(60).collect::<String>()));
                 }
                 Prep::Unparsable(why) => {
@@ -1067,10 +1070,12 @@ fn inject_interface_conditions(rng: &mut Rng, schema: &SchemaModel, doc: &mut Do
     let mut new_frags: Vec<FragDef> = vec![];
     let mut added = 0usize;
     {
-        let Some((op, _)) = first_op_sel(doc) else { return Err("no-operation") };
-        if op.kind == OpKind::Subscription {
-            return Err("subscription");
-        }
+        let Some(op) = doc.defs.iter_mut().find_map(|d| match d {
+            ExecDef::Op(o) if o.kind != OpKind::Subscription => Some(o),
+            _ => None,
+        }) else {
+            return Err("only-subscriptions");
+        };
         let Some(rt) = schema.root(op.kind).and_then(|r| schema.type_def(r)) else { return Err("no-root") };
         // places: Ok(index of an existing root selection with a sub-selection) / Err(root field not selected yet)
         let mut places: Vec<Result<usize, &FieldDef>> = vec![];
@@ -1089,24 +1094,32 @@ fn inject_interface_conditions(rng: &mut Rng, schema: &SchemaModel, doc: &mut Do
         if places.is_empty() {
             return Err("no-composite-root-field");
         }
-        rng.shuffle(&mut places);
-        let take = 1 + rng.below(2);
-        let mut k = 0usize;
-        for place in places.into_iter().take(take) {
-            let fname = match &place {
+        let field_of = |place: &Result<usize, &FieldDef>| -> Option<String> {
+            match place {
                 Ok(si) => match &op.sel[*si] {
-                    Sel::Field { name, .. } => name.clone(),
-                    _ => continue,
+                    Sel::Field { name, .. } => Some(name.clone()),
+                    _ => None,
                 },
-                Err(f) => f.name.clone(),
-            };
+                Err(f) => Some(f.name.clone()),
+            }
+        };
+        let overlapping = |fname: &str| -> Vec<String> {
+            let Some(f) = rt.fields.iter().find(|f| f.name == fname) else { return vec![] };
+            let poss = schema.possible_types(f.ty.unwrapped());
+            schema.types().filter(|t| t.kind == TypeKind::Interface && schema.possible_types(&t.name).iter().any(|o| poss.contains(o))).map(|t| t.name.clone()).collect()
+        };
+        let mut places: Vec<(Result<usize, &FieldDef>, String)> = places.into_iter().filter_map(|p| field_of(&p).map(|n| (p, n))).filter(|(_, n)| !overlapping(n).is_empty()).collect();
+        if places.is_empty() {
+            return Err("no-interface-overlaps-a-root-field");
+        }
+        rng.shuffle(&mut places);
+        let take = if rng.coin() { places.len() } else { 1 + rng.below(2) };
+        let mut k = 0usize;
+        for (pi, (place, fname)) in places.into_iter().take(take).enumerate() {
             let Some(f) = rt.fields.iter().find(|f| f.name == fname) else { continue };
             let target = f.ty.unwrapped().to_string();
             let poss = schema.possible_types(&target);
-            let mut ifaces: Vec<String> = schema.types().filter(|t| t.kind == TypeKind::Interface && schema.possible_types(&t.name).iter().any(|o| poss.contains(o))).map(|t| t.name.clone()).collect();
-            if ifaces.is_empty() {
-                continue;
-            }
+            let mut ifaces = overlapping(&fname);
             rng.shuffle(&mut ifaces);
             let mut sel = vec![Sel::field("__typename")];
             for i in &ifaces {
@@ -1122,6 +1135,18 @@ fn inject_interface_conditions(rng: &mut Rng, schema: &SchemaModel, doc: &mut Do
                 }
                 if inner.is_empty() {
                     inner.push(Sel::field("__typename"));
+                }
+                // sometimes a nested condition on another interface J that shares an object type with I below `f`
+                if rng.chance(1, 3) {
+                    let in_i = schema.possible_types(i);
+                    let js: Vec<&String> = ifaces.iter().filter(|j| *j != i && schema.possible_types(j).iter().any(|o| in_i.contains(o) && poss.contains(o))).collect();
+                    if !js.is_empty() {
+                        let j = js[rng.below(js.len())];
+                        let jl: Vec<&FieldDef> = schema.type_def(j).unwrap().fields.iter().filter(|g| ok_args(g) && !schema.is_composite(g.ty.unwrapped())).collect();
+                        let leaf = if jl.is_empty() { Sel::field("__typename") } else { Sel::field(&jl[rng.below(jl.len())].name) };
+                        inner.push(Sel::Inline { cond: Some((j.clone(), P::default())), dirs: vec![], sel: vec![leaf], pos: P::default() });
+                        added += 1;
+                    }
                 }
                 let mut s = if rng.chance(2, 5) {
                     k += 1;
@@ -1146,7 +1171,7 @@ fn inject_interface_conditions(rng: &mut Rng, schema: &SchemaModel, doc: &mut Do
                     }
                 }
                 Err(_) => {
-                    let alias = if rng.chance(1, 4) { Some((format!("injI{k}x"), P::default())) } else { None };
+                    let alias = if rng.chance(1, 4) { Some((format!("injI{pi}"), P::default())) } else { None };
                     op.sel.push(Sel::Field { alias, name: fname, name_pos: P::default(), args: vec![], dirs: vec![], sel: Some(sel) });
                 }
             }
@@ -1155,9 +1180,6 @@ fn inject_interface_conditions(rng: &mut Rng, schema: &SchemaModel, doc: &mut Do
     for f in new_frags {
         let at = rng.below(doc.defs.len() + 1);
         doc.defs.insert(at, ExecDef::Frag(f));
-    }
-    if added == 0 {
-        return Err("no-interface-overlaps-the-chosen-fields");
     }
     Ok(added)
 }
@@ -1335,7 +1357,8 @@ pub fn main_for(property: &str, which: &'static str) {
         r.run(&batch, true);
         // stream "interface hierarchies" (own random stream: the generated stream above is unchanged)
         let mut rng = Rng::new(args.seed ^ 0x1FACE_C01);
-        let n = if search { 400 } else { args.budget(60, 500) };
+        // (the C02 oracle costs about three times the C01 oracle per case)
+        let n = if search { 400 } else if which == "oracle.c01" { args.budget(60, 500) } else { args.budget(40, 300) };
         let mut batch = vec![];
         for _ in 0..n {
             let c = gen_case_with(&mut rng, r.rep, true);
